@@ -926,6 +926,27 @@ def directed_cases(rng):
            + num(len(h)) + b"\x00" + b"\x00")
     out.append(("control: encoded header, Copy coder, exact size", seal(eh0, packed + h), None, ["getnames", "extractall"], None))
     out.append(("control: valid copy archive, every call once", a, None, ["getnames", "list", "needs_password", "test", "testzip"], None))
+    # a declared count in front of a record that is sized by it, with the record that normally bounds the count left out:
+    # every vector that is read "one entry per declared item" (all-defined CRC vectors, bit vectors, size lists)
+    big = [2 ** 28, 2 ** 32, 2 ** 40]
+    for n in big:
+        pk = b"\x01\x04\x06\x00" + num(n)
+        out.append(("regression: %d pack streams, no SIZE record, CRC record all defined" % n, seal(pk + b"\x0a\x01" + b"\x00\x00\x00"), None,
+                    ["getnames"], None))
+        out.append(("regression: %d pack streams, no SIZE record, CRC record with a bit vector" % n, seal(pk + b"\x0a\x00\xff" + b"\x00\x00\x00"),
+                    None, ["getnames"], None))
+        out.append(("regression: %d pack streams, SIZE record cut short, CRC record all defined" % n,
+                    seal(pk + b"\x09\x01\x01" + b"\x0a\x01" + b"\x00\x00\x00"), None, ["getnames"], None))
+        out.append(("regression: %d folders declared, nothing follows" % n, seal(b"\x01\x04\x07\x0b" + num(n) + b"\x00"), None, ["getnames"], None))
+        out.append(("regression: one folder, folder CRC record for %d folders" % n,
+                    seal(b"\x01\x04\x07\x0b\x01\x00" + folder + b"\x0c\x05\x0a\x01" + b"\x00\x00"), None, ["getnames"], None))
+        out.append(("%d files, EMPTY_STREAM vector of one byte" % n, seal(b"\x01\x05" + num(n) + b"\x0e\x01\xff\x00\x00"), None,
+                    ["getnames"], ("alloc", "numfiles")))
+    # perfectly valid archives whose member names collide with the names extraction invents for duplicates (<name>_<k>)
+    for names in (["a", "a", "a"], ["a_0", "a", "a"], ["a", "a_0", "a"], ["a", "a", "a_0"], ["a", "a", "a_0", "a_1", "a"],
+                  ["a_1", "a_0", "a", "a", "a"], ["d/a", "d/a_0", "d/a", "d/a"]):
+        dup = arch.make_archive([(nm, ("member %d" % i).encode()) for i, nm in enumerate(names)], chain="copy", encoded=False)
+        out.append(("control: valid archive with member names %r" % (names,), dup, None, ["getnames", "extractall", "reset", "testzip"], None))
     return out
 
 
